@@ -387,7 +387,28 @@ pub fn sched_yield(site: u32) {
     }
 }
 
+thread_local! {
+    /// time warp: (site, milliseconds) - this thread sleeps once when it reaches the hook site
+    static TW: Cell<Option<(u32, u64)>> = const { Cell::new(None) };
+    /// sites seen by this thread while recording
+    static TW_SEEN: std::cell::RefCell<Option<Vec<u32>>> = const { std::cell::RefCell::new(None) };
+}
+
+/// the one hook installed for the whole C14 run: time warp (per thread), then the baton scheduler
 fn hook(site: u32) {
+    TW_SEEN.with(|v| {
+        if let Some(v) = v.borrow_mut().as_mut() {
+            if !v.contains(&site) {
+                v.push(site);
+            }
+        }
+    });
+    if let Some((s, ms)) = TW.with(|t| t.get()) {
+        if s == site {
+            TW.with(|t| t.set(None));
+            std::thread::sleep(std::time::Duration::from_millis(ms));
+        }
+    }
     sched_yield(site);
 }
 
@@ -444,7 +465,6 @@ pub fn run_schedule(s: &dyn Subject, inp: &Inputs, bodies: &[Vec<usize>], prefix
         }
         hs.into_iter().map(|h| h.join().unwrap_or_default()).collect()
     });
-    s.set_sched_hook(None);
     let mut g = SCHED.lock().unwrap_or_else(|e| e.into_inner());
     let sd = g.take().unwrap();
     Execution { points: sd.points, results, diverged: sd.diverged }
@@ -708,6 +728,52 @@ pub fn run_c14(ctx: &Ctx, st: &mut Local) {
         let _ = std::fs::remove_file(&path);
         let e = st.eng(name);
         e.bound = format!("17 calls x {} fresh processes each (x5 for the six calls that differ only in the hash algorithm), 8-16 threads that warm up with sibling calls, start the call at a spinning barrier and meet again at the hook point before hashing starts (free-running: a sample of interleavings, labelled as such)", reps);
+        e.exhaustive = true;
+    }
+
+    // (2c) time warp: a thread is held for seconds at a hook point in the middle of a call; the result
+    // must not depend on how much wall-clock time the call took
+    let name = "timewarp";
+    if ctx.engine_on(name) {
+        s.set_sched_hook(Some(hook));
+        let ms: u64 = if ctx.quick() { 3_000 } else { 12_000 };
+        let mut idx = 0u64;
+        for id in 0..NCALLS {
+            if id == 8 || id == 9 {
+                continue;
+            }
+            // which hook sites does this call reach?
+            TW_SEEN.with(|v| *v.borrow_mut() = Some(Vec::new()));
+            let _ = call(s, id, &inp);
+            let sites: Vec<u32> = TW_SEEN.with(|v| v.borrow_mut().take().unwrap_or_default());
+            for site in sites {
+                if site >= 100 {
+                    continue;
+                }
+                let i = idx;
+                idx += 1;
+                if ctx.sel.mine(i) {
+                    count(ctx, name, st, i);
+                }
+                if !ctx.take(name, i) {
+                    continue;
+                }
+                st.sample(name, || format!("#{} {} held for {} ms at hook site {}", i, CALL_NAMES[id], ms, site));
+                ctx.begin(name, i, 120_000 + ms);
+                TW.with(|t| t.set(Some((site, ms))));
+                let d = call(s, id, &inp);
+                TW.with(|t| t.set(None));
+                ctx.end();
+                if d != seq[id] {
+                    st.violation(ctx.viol(name, i, "wall-clock-dependent-result", None,
+                        format!("{} returns a different result when the calling thread is held for {} ms at hook site {}", CALL_NAMES[id], ms, site), &[]));
+                } else {
+                    st.outcome(name, "independent-of-elapsed-time");
+                }
+            }
+        }
+        let e = st.eng(name);
+        e.bound = format!("17 calls x every hook site the call reaches: the calling thread sleeps {} ms at the first visit of the site", ms);
         e.exhaustive = true;
     }
 
